@@ -10,7 +10,8 @@ CONSTANTS MaxFlat,      \* flat templates with 1..MaxFlat components
           FullPermsUpTo,\* flat templates with at most this many components: every declaration order and kind vector
           AllKindsUpTo, \* flat templates with at most this many components: every group / class-argument vector
           MaxDeepLinks, \* deep templates: link sets with at most this many links
-          DeepFull,     \* TRUE: every kind vector and declaration order of the deep / nested-key templates
+          DeepFull,     \* TRUE (thorough): every kind vector and declaration order of the deep / nested-key templates,
+                        \* three link orders for the 3-component templates
           Emit
 
 RECURSIVE SetToSeq(_)
@@ -39,7 +40,7 @@ Deep2(ks, ko) == [decl |-> <<D(<<"s">>, ks, << >>), D(<<"m">>, S, << >>), D(<<"o
                   objs |-> {<<"s">>, <<"m">>, <<"o">>, <<"m", "init_args", "enc">>}, plains |-> {}, deep |-> TRUE]
 
 FlatTemplates == UNION {{Flat(n, kv) : kv \in (IF n <= AllKindsUpTo THEN KindVecs(n) ELSE FewKinds(n))} : n \in 1..MaxFlat}
-                 \cup (IF MaxFlat >= 3 THEN {FlatNested(kv) : kv \in (IF DeepFull THEN FewKinds(3) ELSE {[i \in 1..3 |-> G], [i \in 1..3 |-> IF i % 2 = 1 THEN G ELSE S]})} ELSE {})
+                 \cup (IF MaxFlat >= 3 THEN {FlatNested(kv) : kv \in (IF DeepFull THEN FewKinds(3) ELSE {[i \in 1..3 |-> IF i % 2 = 1 THEN G ELSE S]})} ELSE {})
                  \cup {FlatPlain(kv) : kv \in KindVecs(2)}
 DeepTemplates == IF MaxDeepLinks = 0 THEN {} ELSE
                  IF DeepFull THEN {Deep1(ks, ko) : ks \in {G, S}, ko \in {G, S}} \cup {Deep2(ks, ko) : ks \in {G}, ko \in {G, S}}
@@ -67,7 +68,8 @@ Rev(s)      == [i \in DOMAIN s |-> s[Len(s) + 1 - i]]
 Rot(s)      == LET h == Len(s) \div 2 IN SubSeq(s, h + 1, Len(s)) \o SubSeq(s, 1, h)
 Big(t)         == ~t.deep /\ Len(t.decl) > FullPermsUpTo
 EvenFirst(s)   == IF Len(s) < 2 \/ Index(SetToSeq(Range(s)), s[1]) <= Index(SetToSeq(Range(s)), s[Len(s)]) THEN s ELSE Rev(s)   \* one of {s, Rev(s)}
-OrdersOf(t, s) == IF t.deep THEN {s} ELSE IF Big(t) THEN (IF Cyclic(EdgeSet(s)) THEN {s} ELSE {s, Rev(s)}) ELSE {s, Rev(s), Rot(s)}
+OrdersOf(t, s) == IF t.deep THEN {s} ELSE IF Big(t) THEN (IF Cyclic(EdgeSet(s)) THEN {s} ELSE {s, Rev(s)})
+                  ELSE IF DeepFull \/ Len(t.decl) <= AllKindsUpTo THEN {s, Rev(s), Rot(s)} ELSE {s, Rev(s)}
 
 \* ------------------------------------------------------------------ links of an edge sequence, by style
 \* styles 0..3 rotate "whole object / attribute" and "no function / function" over the links; style 4 merges the
